@@ -825,7 +825,7 @@ def run(ctx):
     _run_block(ctx, _block_events(ctx), mined=_run_mine(ctx, _mine_cases(ctx)))
     # extension beyond the listed property (never a VIOLATION): the mining integration, spec/Mine.tla
     from . import ext_mine
-    ext_mine.stage(ctx)
+    ctx.run_extension("Mine", ext_mine.stage, ctx)
 
 
 def replay(ctx, path):
